@@ -38,7 +38,8 @@ MODELS_USED = ["symreal ExtensionArray", "object ndarray of proxies"]
 ASSUMPTIONS = ["IANA database (pytz) and pandas tz arithmetic are executed, not modelled: zones/transitions are an enumerated catalogue",
                "hourly predictions finite on every row: outside the claim (sklearn ElasticNet/scalers)",
                "zones whose offset changes by a fraction of an hour are outside (b): the hourly data class only accepts on-the-hour stamps"]
-EXPECTED_REGIMES = ["23-hour day", "25-hour day", "transition at local midnight", "daily index across DST", "non-finite (inf) cell in the reporting frame"]
+EXPECTED_REGIMES = ["23-hour day", "25-hour day", "transition at local midnight", "daily index across DST", "non-finite (inf) cell in the reporting frame",
+                    "temperature-only reporting data (usage column all NaN)"]
 
 
 def ENCODED():
@@ -131,9 +132,12 @@ def run_b(case: Case, zone, tier):
         midnight = any(r[0][0] in ("gap", "mean") for r in slots)
         case.inputs = [z3.Real(f"f{i}") for i in range(n)] + [z3.Real(f"y{i}") for i in range(24 * D)]
 
+        usage_variants = ["present", "absent", "missing on the transition day"] if (tier == "quick" or date[:4] in ("2021", "2011")) else ["present"]
+
         def run():
             f = [real(f"f{i}") for i in range(n)]
-            df = pd.DataFrame({"observed": np.arange(n, dtype=float), "f_norm": SymArray(f), "c": 1.0}, index=idx)
+            usage = F.choose("usage", usage_variants) if len(usage_variants) > 1 else "present"
+            df = pd.DataFrame({"observed": usage_column(idx, date, usage), "f_norm": SymArray(f), "c": 1.0}, index=idx)
             df["date"] = df.index.date
             dst = hm._get_dst_indices(df)
             m = object.__new__(hm.HourlyModel)
@@ -143,11 +147,12 @@ def run_b(case: Case, zone, tier):
             X, _ = m._get_feature_matrices(df.reset_index(), dst)
             yp = symarr([real(f"y{i}") for i in range(24 * D)])
             out = hm._transform_dst(yp, dst)
-            return dst, X, out
+            return dst, X, out, usage
 
         paths = case.explore(run)
-        rp = ("dst", lambda mdl, zone=zone, date=date, before=before: dict(zone=zone, date=date, before=before))
         for p in paths:
+            usage = p.value[3] if p.outcome == "ret" else next((v for v in usage_variants if any(str(c) == f"usage == {usage_variants.index(v)}" for c in p.pc)), usage_variants[-1])
+            rp = ("dst", lambda mdl, zone=zone, date=date, before=before, usage=usage: dict(zone=zone, date=date, before=before, usage=usage))
             if p.outcome != "ret":
                 ex = p.value
                 if case.finding_open("C06-midnight-dst") and midnight and isinstance(ex, KeyError):
@@ -158,7 +163,8 @@ def run_b(case: Case, zone, tier):
                         continue
                 case.prove(p, False, "clock normalisation does not raise", replay=rp)
                 continue
-            dst, X, out = p.value
+            dst, X, out, usage = p.value
+            case.regime("temperature-only reporting data (usage column all NaN)", usage == "absent")
             case.regime("23-hour day", 23 in lens)
             case.regime("25-hour day", 25 in lens)
             if midnight:
@@ -208,6 +214,17 @@ def run_b(case: Case, zone, tier):
                 case.sample(dict(zone=zone, transition=date, transition_day_position=before, rows=n, day_lengths=lens, dst_indices=repr(dst)))
 
 
+def usage_column(idx, date, usage):
+    """the usage column as the hourly reporting data class hands it over: values, all NaN (temperature-only data),
+    or NaN on the transition day"""
+    col = np.arange(len(idx), dtype=float)
+    if usage == "absent":
+        col[:] = np.nan
+    elif usage != "present":
+        col[np.array([t.date() == dt.date.fromisoformat(date) for t in idx])] = np.nan
+    return col
+
+
 def replay_dst(inp):
     """concrete float run of the three functions: returns (bad, detail)"""
     zone, date = inp["zone"], inp["date"]
@@ -215,7 +232,7 @@ def replay_dst(inp):
     n = len(idx)
     rng = np.random.default_rng(0)
     fv = rng.normal(size=n)
-    df = pd.DataFrame({"observed": np.arange(n, dtype=float), "f_norm": fv, "c": 1.0}, index=idx)
+    df = pd.DataFrame({"observed": usage_column(idx, date, inp.get("usage", "present")), "f_norm": fv, "c": 1.0}, index=idx)
     df["date"] = df.index.date
     try:
         dst = hm._get_dst_indices(df)
@@ -228,7 +245,7 @@ def replay_dst(inp):
         yv = rng.normal(size=24 * D)
         out = hm._transform_dst(yv, dst)
     except Exception as ex:
-        return True, f"{type(ex).__name__}: {ex} for hourly index {idx[0]} .. {idx[-1]}"
+        return True, f"{type(ex).__name__}: {str(ex)[:160]} for hourly index {idx[0]} .. {idx[-1]}, usage {inp.get('usage', 'present')}"
     days, by_date, slots = expected_slots(idx)
     pr = []
     if X.shape != (len(days), 25):
